@@ -676,6 +676,16 @@ class WBEMSubscriptionManager:
                                  "'destination_id' parameter must not be "
                                  "specified")
 
+        if destination_id is not None:
+            if not isinstance(destination_id, str):
+                raise TypeError(
+                    _format("Invalid type for destination ID: {0!A}",
+                            destination_id))
+            if ':' in destination_id:
+                raise ValueError(
+                    _format("Destination ID contains ':': {0!A}",
+                            destination_id))
+
         # Validate persistence_type, and default it to 3 (transient) if the
         # destination is owned.
         persistence_type_value = validate_persistence_type(persistence_type)
